@@ -16,14 +16,17 @@ SHRINK = None
 
 def gen(rng, i, tier):
     n = int(rng.integers(2, 60 if tier == "quick" else 600))
-    x, gk = grid(rng, n=n, extra=0.3)
+    big = bool(rng.random() < 0.015)
+    if big:
+        n = int(rng.integers(150000, 260000))   # len(x)*len(x') beyond 2^23: block-wise / chunked evaluations show their seams
+    x, gk = grid(rng, n=n, extra=0.3, kind="irregular" if big else None)
     y, dk = data(rng, x)
     y = special(rng, y)        # exact zeros in the data, often at the ends
     z, _ = data(rng, x)
     # "every data vector": the values may not depend on whether / which uncertainties accompany the data
     r = rng.random()
     dy = None if r < 0.4 else (unc_relative(rng, y) if r < 0.7 else unc(rng, x, allow_none=False))
-    xo, _ = grid(rng, n=int(rng.integers(1, 10)) + 1)
+    xo, _ = grid(rng, n=(int(rng.integers(45, 60)) if big else int(rng.integers(1, 10)) + 1))
     if gk.startswith("tiny"):
         xo = xo * 1e9          # conjugate units, so that x*x' stays of order one
     elif gk.startswith("huge"):
@@ -49,6 +52,8 @@ def weights(x):
 
 def direct(x, y, t):
     w = weights(x)
+    if len(x) > 5000:
+        return float(np.sum(w * y * np.sin(x * t)))
     return math.fsum(float(wj) * float(yj) * math.sin(float(xj) * float(t)) for wj, yj, xj in zip(w, y, x))
 
 
